@@ -107,8 +107,13 @@ def worker_init() -> None:
             await asyncio.sleep(0.01)  # replies take time: send time < receive time
             if outcome[0] == "reply":
                 return outcome[1]
+            if outcome[0] == "pending-forever":
+                st["pending_polls"] = st.get("pending_polls", 0) + 1
+                return bytes([0x7F, st["wire"][i][1][0], 0x78])
             if outcome[0] == "connerr":
                 raise ConnectionResetError(104, "reset")
+            if outcome[0] == "oserror":  # an error that is neither a timeout nor a ConnectionError
+                raise OSError(113, "No route to host")
             await asyncio.sleep(timeout if timeout else 10**6)
             raise TimeoutError
 
@@ -197,7 +202,7 @@ def build(item: dict[str, Any], box: dict[str, Any]) -> Any:
                 try:
                     r = await ecu.request(req, cfg)
                     box["results"].append(("ok", r.pdu))
-                except (G["UDSException"], ConnectionError, TimeoutError) as e:
+                except Exception as e:  # noqa: BLE001  (whatever the request ends with must be recorded)
                     box["results"].append(("exc", type(e).__name__))
                 box["completed"] += 1
 
@@ -288,6 +293,7 @@ def judge(item: dict[str, Any], box: dict[str, Any], choices: list[int], res: Re
             break
         out = s[2]
         reply = bytes.fromhex(out[1]) if out[0] == "reply" else None
+        anyreply = out[0] == "pending-forever"  # the request fails after many responsePending replies: reply column not pinned down
         result = results[k] if k < len(results) else None
         inflight = result is None
         if implicit:
@@ -301,6 +307,7 @@ def judge(item: dict[str, Any], box: dict[str, Any], choices: list[int], res: Re
                     "mode": "emphasized" if s[3] else "implicit",
                     "send_t": BASE_T + wire[k][0],
                     "inflight": inflight,
+                    "anyreply": anyreply,
                     "kind": T.find("req", wire[k][1]).name if T.find("req", wire[k][1]) else "raw",
                     "outcome": out[0],
                 }
@@ -327,7 +334,7 @@ def judge(item: dict[str, Any], box: dict[str, Any], choices: list[int], res: Re
         if req_pdu != e["request"]:
             v(f"row|request-bytes|{tag}", f"row {i}: request_pdu {req_pdu} != wire bytes {e['request']}")
             return
-        if rsp_pdu != e["response"]:
+        if rsp_pdu != e["response"] and not e["anyreply"]:
             v(f"row|response-bytes|{tag}", f"row {i}: response_pdu {rsp_pdu} != reply bytes {e['response']}")
             return
         if (exc is not None) != e["exception"]:
@@ -649,6 +656,7 @@ ALPHA = {
     "mismatch": ("221234", ("reply", "624321aa")),
     "malformed": ("221234", ("reply", "6212")),
     "connerr": ("221234", ("connerr",)),
+    "oserror": ("221234", ("oserror",)),
     "nrc": ("2e1234aa", ("reply", "7f2e31")),
 }
 
@@ -683,6 +691,9 @@ def items(tier: str, seed: int) -> list[Any]:
             out.append(({"steps": steps}, 1 if n <= 2 else 0, cap))
             if n <= 2 or (not quick and n == 3):
                 out.append(({"steps": steps, "cancel": True}, bound, cap))
+    # requests that end with an uncommon exception: OSError that is no ConnectionError, RuntimeError after 120 responsePending
+    out.append(({"steps": [("req", "221234", ("oserror",), False), ("req", "221234", ("reply", "621234aa"), True)]}, 0, cap))
+    out.append(({"steps": [("req", "221234", ("pending-forever",), False), ("req", "1002", ("reply", "5002003201f4"), False)]}, 0, cap))
     # a transient OperationalError ('database is locked') while the k-th row is written
     for seq in (("read", "dsc2", "read"), ("dsc2", "key", "read"), ("read", "nrc", "timeout", "read")):
         steps = [("req", ALPHA[a][0], ALPHA[a][1], False) for a in seq]
